@@ -40,7 +40,7 @@ RULE = ("networks of 2..6 nodes (8 thorough), <= 12 arcs (16), costs -3..6 built
         "rectangular assignment matrices 0..5 x 0..5; non-trivial = the model made >= 2 augmentations or used a "
         "backward residual arc; distinct by canonical (function, instance)")
 TIMEOUT = 1.5        # min_cost_flow / solve_assignment: >= 1000x the run time of any explored instance
-TIMEOUT_NS = 15.0    # network_simplex stops at max_iter = 1e6 (about 4-10 s on these sizes)
+TIMEOUT_NS = 12.0    # network_simplex stops at max_iter = 1e6 (about 4-10 s on these sizes)
 
 
 # ---------------------------------------------------------------------------
@@ -332,20 +332,8 @@ def impl(case):
         deep = impl_ns_flag(case)
         return {"deep_rehang": deep, **_res(network_simplex(case["n"], [tuple(a) for a in case["arcs"]], list(case["supplies"])))}
     if fn == "solve_assignment":
-        from collections import defaultdict
         from solvor.flow import solve_assignment
-        mat = [list(r) for r in case["matrix"]]
-        n = len(mat)
-        m = len(mat[0]) if n else 0
-        g = defaultdict(list)          # the graph exactly as solve_assignment builds it
-        for i in range(n):
-            g["source"].append((f"L{i}", 1, 0))
-            for j in range(m):
-                g[f"L{i}"].append((f"R{j}", 1, mat[i][j]))
-        for j in range(m):
-            g[f"R{j}"].append(("sink", 1, 0))
-        order = _set_order(g, "source", "sink")
-        return {"order": order, **_res(solve_assignment(mat))}
+        return _res(solve_assignment([list(r) for r in case["matrix"]]))
     raise ValueError(fn)
 
 
@@ -416,23 +404,6 @@ def mcf_instance(case, order):
         idx.setdefault(lab, len(idx))          # (only if the worker died before reporting an order)
     raw = fc.arcs_in_order(case["graph"], idx, with_cost=True)
     return idx, raw
-
-
-def assignment_instance(mat, order):
-    n = len(mat)
-    m = len(mat[0]) if n else 0
-    labels = ["source", "sink"] + [f"L{i}" for i in range(n)] + [f"R{j}" for j in range(m)]
-    idx = {lab: i for i, lab in enumerate(order or [])}
-    for lab in labels:
-        idx.setdefault(lab, len(idx))
-    arcs = []
-    for i in range(n):
-        arcs.append([idx["source"], idx[f"L{i}"], 1, 0])
-        for j in range(m):
-            arcs.append([idx[f"L{i}"], idx[f"R{j}"], 1, int(mat[i][j])])
-    for j in range(m):
-        arcs.append([idx[f"R{j}"], idx["sink"], 1, 0])
-    return idx, arcs, min(n, m)
 
 
 def impl_flow(out, arcs, idx):
@@ -523,8 +494,6 @@ def verdict(ctx, fn, suffix, case, out, model, ichk, problem, rep):
         if reported < m_cost:
             raise Infra(f"C09: Lean-checked feasible flow of cost {reported} below the certified optimum {m_cost}: {case}")
         ctx.fail(fn, "wrong_cost" + suffix, f"reported cost {reported}, certified optimum {m_cost}", rep)
-    if not ok and feas and fc.integral(r["objective"]) == m_cost:
-        pass
     return ok
 
 
@@ -576,41 +545,44 @@ def run_impl(cases):
 
 
 def run_cases(ctx, cases):
-    outs = run_impl(cases)
-    # every s-t instance also goes to network_simplex (common instances)
-    twins, twin_of = [], {}
-    reqs, meta = [], []
-    for ci, (c, o) in enumerate(zip(cases, outs)):
+    # node numbering = iteration order of the code's `nodes` set (workers are forked from this process,
+    # so str hashes and therefore set orders coincide; the worker reports its own order as a cross-check)
+    twins, twin_of, meta = [], {}, []
+    for ci, c in enumerate(cases):
         fn = c["fn"]
-        order = o[1].get("order") if o[0] == "ok" else None
         if fn == "min_cost_flow":
-            if order is None:
-                order = _set_order(fc.graph_dict(c["graph"]), c["source"], c["sink"])
+            order = _set_order(fc.graph_dict(c["graph"]), c["source"], c["sink"])
             idx, raw = mcf_instance(c, order)
             s, t, d = idx[c["source"]], idx[c["sink"]], c["demand"]
-            if s != t and d >= 0:
+            if s != t and d >= 0:   # every s-t instance also goes to network_simplex (common instances)
                 sup = [0] * len(idx)
                 sup[s] += d
                 sup[t] -= d
                 twin_of[ci] = len(twins)
                 twins.append({"fn": "network_simplex", "n": len(idx), "arcs": raw, "supplies": sup})
-            meta.append((idx, raw))
+            meta.append((idx, raw, order))
         elif fn == "solve_assignment":
-            idx, raw, k = assignment_instance(c["matrix"], order)
-            meta.append((idx, raw, k))
+            meta.append(({}, [], None))
         else:
-            meta.append(({i: i for i in range(c["n"])}, [list(a) for a in c["arcs"]]))
-    touts = run_impl(twins)
+            meta.append(({i: i for i in range(c["n"])}, [list(a) for a in c["arcs"]], None))
+    allouts = run_impl(list(cases) + twins)
+    outs, touts = allouts[:len(cases)], allouts[len(cases):]
+    for c, o, mt in zip(cases, outs, meta):
+        if o[0] == "ok" and mt[2] is not None and o[1].get("order") != mt[2]:
+            raise Infra(f"set iteration order differs between harness and worker: {mt[2]} vs {o[1].get('order')}")
+    reqs = []
     for ci, (c, o) in enumerate(zip(cases, outs)):
         fn = c["fn"]
         idx, raw = meta[ci][0], meta[ci][1]
         arcs = merge_parallel(raw)
         impls, problems = [], []
         if fn == "solve_assignment":
-            x, problem = assignment_flow(c, o, idx, arcs)
-            impls.append(x)
+            mat = c["matrix"]
+            n = len(mat)
+            m = len(mat[0]) if n else 0
+            a, rep, problem = assignment_answer(c, o, n, m)
             problems.append(problem)
-            reqs.append(["mcf_st", len(idx), arcs, idx["source"], idx["sink"], meta[ci][2], impls])
+            reqs.append(["assign", n, m, [[int(v) for v in r] for r in mat], a, rep])
         else:
             x, problem = impl_flow(o, arcs, idx)
             impls.append(x)
@@ -628,34 +600,76 @@ def run_cases(ctx, cases):
     for ci, (c, o, rp) in enumerate(zip(cases, outs, replies)):
         if rp and rp[0] == "error":
             raise Infra(f"model rejected request: {rp} for {c}")
-        judge(ctx, c, o, touts[twin_of[ci]] if ci in twin_of else None, meta[ci], rp)
+        if c["fn"] == "solve_assignment":
+            judge_assign(ctx, c, o, meta[ci][-1][0], rp)
+        else:
+            judge(ctx, c, o, touts[twin_of[ci]] if ci in twin_of else None, meta[ci], rp)
 
 
-def assignment_flow(case, out, idx, arcs):
-    """assignment list -> per-arc flow of the bipartite network"""
+def assignment_answer(case, out, n, m):
+    """(assignment list, reported objective, problem) for the verified checker `chkAssign`"""
     if out[0] != "ok" or out[1]["status"] not in ("OPTIMAL", "FEASIBLE"):
-        return None, None
+        return None, None, None
     r = out[1]
-    mat = case["matrix"]
-    n = len(mat)
-    m = len(mat[0]) if n else 0
     a = r["solution"]
     rep = fc.integral(r["objective"])
     if rep is None:
-        return None, ("cost_not_integer", f"objective {r['objective']!r}")
-    if not isinstance(a, list) or len(a) != n or any(not isinstance(j, int) or isinstance(j, bool) or j < -1 or j >= m for j in a):
-        return None, ("malformed_assignment", f"assignment {a!r} for a {n}x{m} matrix")
-    pooled = {}
-    for i, j in enumerate(a):
-        if j >= 0:
-            pooled[(idx["source"], idx[f"L{i}"])] = 1
-            pooled[(idx[f"L{i}"], idx[f"R{j}"])] = 1
-            k = (idx[f"R{j}"], idx["sink"])
-            pooled[k] = pooled.get(k, 0) + 1
-    x, problem = split_flow(arcs, pooled)
-    if problem:
-        return None, problem
-    return [x, rep], None
+        return None, None, ("cost_not_integer", f"objective {r['objective']!r}")
+    if not isinstance(a, list) or any(not isinstance(j, int) or isinstance(j, bool) for j in a):
+        return None, None, ("malformed_assignment", f"assignment {a!r} for a {n}x{m} matrix")
+    return a, rep, None
+
+
+def judge_assign(ctx, case, out, problem, reply):
+    """solve_assignment: valid assignment (verified checker chkAssign), objective = its cost = the certified
+    optimum of the bipartite network (assignment_optimal_of_cert: a lower bound for every valid assignment)"""
+    fn = "solve_assignment"
+    ctx = _Ctx(ctx)
+    m_status, m_cost, m_asg, m_iters, m_cert, ichk = reply
+    if m_status != "feasible" or not m_cert:
+        raise Infra(f"C09 assignment model did not certify its own answer ({m_status}, {m_cert}) on {case}")
+    ctx.count("cert_checked_model")
+    ctx.count(f"{fn}:cases")
+    rep = {"case": case, "impl": out, "model": {"optimal_cost": m_cost, "assignment": m_asg}}
+    ok = True
+    if out[0] != "ok":
+        kind = err_kind(out)
+        ok = False
+        if kind in ("Timeout", "MemoryError"):
+            ctx.fail(fn, "no_return", f"call did not return within the time limit, twice ({kind})", rep)
+        else:
+            ctx.fail(fn, f"raises:{kind}", f"valid input raised: {out[1][:300]}", rep)
+    else:
+        r = out[1]
+        ctx.count(f"{fn}:status:{r['status']}")
+        if r["status"] == "INFEASIBLE":
+            ok = False
+            ctx.fail(fn, "false_infeasible", f"INFEASIBLE although an assignment of cost {m_cost} exists: {m_asg}", rep)
+        elif r["status"] not in ("OPTIMAL", "FEASIBLE"):
+            ok = False
+            ctx.fail(fn, "bad_status", f"unexpected status {r['status']}", rep)
+        elif problem:
+            ok = False
+            ctx.fail(fn, problem[0], problem[1], rep)
+        else:
+            valid, cost_a, cost_eq = ichk
+            ctx.count("cert_checked_impl")
+            if not valid:
+                ok = False
+                ctx.fail(fn, "invalid_assignment", f"{r['solution']} is not an assignment of min(n, m) rows to distinct "
+                         "columns (verified checker chkAssign)", rep)
+            elif not cost_eq:
+                ok = False
+                ctx.fail(fn, "cost_mismatch", f"objective {r['objective']} but the assignment costs {cost_a}", rep)
+            elif cost_a != m_cost:
+                ok = False
+                if cost_a < m_cost:
+                    raise Infra(f"C09: Lean-checked assignment cheaper than the certified optimum: {case}")
+                ctx.fail(fn, "wrong_cost", f"assignment cost {cost_a}, certified optimum {m_cost} (e.g. {m_asg})", rep)
+    if ok:
+        ctx.count("r_prop_agree")
+    ctx.case(["solve_assignment", case["matrix"]], m_iters >= 2,
+             {"case": case, "impl": out[1] if out[0] == "ok" else out, "certified_cost": m_cost})
 
 
 def judge(ctx, case, out, tout, meta, reply):
@@ -715,12 +729,6 @@ def judge(ctx, case, out, tout, meta, reply):
         ok = verdict(ctx, fn, ns_suffix(meta[1], out), case, out, reply, ichks[0], problems[0], rep)
         if ok:
             ctx.count("r_prop_agree")
-    else:
-        ok = verdict(ctx, fn, "", case, out, reply, ichks[0], problems[0], rep)
-        if ok:
-            ctx.count("r_prop_agree")
-            if out[1]["status"] == "INFEASIBLE":
-                pass
     canon = [fn, case.get("graph"), case.get("source"), case.get("sink"), case.get("demand"), case.get("n"),
              case.get("arcs"), case.get("supplies"), case.get("matrix")]
     ctx.case(canon, nontrivial, {"case": case, "impl": out[1] if out[0] == "ok" else out, "model_status": m_status,
